@@ -176,7 +176,10 @@ class Interp:
                             v = self.eval(i["init"], fr)
                             v = v.get() if isinstance(v, Cell) else v
                         else:
-                            v = self.dom.copy_value(self.rvalue(i["init"], fr), ft)
+                            v = self.rvalue(i["init"], fr)
+                            if hasattr(self.dom, "fill_member_array") and self.dom.fill_member_array(this.field(i["field"]), v, i["init"], fr):
+                                continue
+                            v = self.dom.copy_value(v, ft)
                         this.field(i["field"]).set(v)
                     elif "base" in i:
                         self.dom.base_init(this, i, fr)
